@@ -1,10 +1,10 @@
 # Verification builds of bwvdnbro/CMacIonize: every flavour compiles /repo/src
 # from the current working tree into /verif/build/<flavour>/ with -MMD
 # dependency files, so an edited header rebuilds exactly what includes it.
-REPO ?= /repo
+REPO ?= $(if $(VERIF_REPO),$(VERIF_REPO),/repo)
 SRC := $(REPO)/src
 V := /verif
-B := $(V)/build
+B := $(if $(VERIF_BUILD),$(VERIF_BUILD),$(V)/build)
 CXX := g++
 HDF5INC := -I/usr/include/hdf5/serial
 LIBS := -L/usr/lib/x86_64-linux-gnu/hdf5/serial -lhdf5 -lpthread
@@ -68,7 +68,7 @@ $(B)/bin/$(1): $(2) $(B)/$(3)/libcmi.a $(wildcard $(V)/lib/*.hpp)
 BINS += $(B)/bin/$(1)
 endef
 
-include $(V)/harness/harness.mk
+include $(wildcard $(V)/harness/*/part.mk)
 
 bins: $(BINS)
 
